@@ -374,11 +374,13 @@ def first_bad_m(R, M, S, flat, lo, hi):
     return None
 
 
-def shrink(ctx, hist, limit=30):
+def shrink(ctx, hist, limit=30, kind=None):
+    """delta debugging on the operation list; a candidate counts only if it fails the same way (a crash stays a
+    crash, a mismatch stays a mismatch on the same kind of operation)"""
     def fails(h):
         rc, R, S, M, flat, _ = run_histories(ctx, [h], "shrink")
-        i, _k = first_bad(R, S, 0, len(flat))
-        return i is not None
+        i, k = first_bad(R, S, 0, len(flat))
+        return i is not None and (kind is None or (k, flat[i].split()[0]) == kind)
     cur = list(hist)
     n = 0
     chunk = max(1, (len(cur) - 1) // 2)
@@ -404,7 +406,10 @@ def signature(hist, i):
 
 def report(ctx, h, tag):
     """shrink a failing history, write the replay, print VIOLATION"""
-    small = shrink(ctx, h) if len(h) <= 400 else h
+    rc0, R0, S0, M0, flat0, _ = run_histories(ctx, [h], "rep0")
+    i0, k0 = first_bad(R0, S0, 0, len(flat0))
+    kind0 = (k0, flat0[i0].split()[0]) if i0 is not None else None
+    small = shrink(ctx, h, kind=kind0) if len(h) <= 400 else h
     rc2, R2, S2, M2, flat2, diag = run_histories(ctx, [small], "rep")
     j, kind = first_bad(R2, S2, 0, len(flat2))
     if j is None:
